@@ -1985,9 +1985,8 @@ class MultiValuedValue(Value):
     def substitute_typevars(self, typevars: TypeVarMap) -> Value:
         if not self.vals or not typevars:
             return self
-        return MultiValuedValue(
-            [val.substitute_typevars(typevars) for val in self.vals]
-        )
+        # Substitution can make members equal (T | int with T = int): unite them again.
+        return unite_values(*[val.substitute_typevars(typevars) for val in self.vals])
 
     def can_assign(self, other: Value, ctx: CanAssignContext) -> CanAssign:
         if isinstance(other, TypeVarValue):
